@@ -52,7 +52,8 @@ def programs(tier):
     menu2 = [["start", "a"], ["end", "b"]]
     out.append(("plain-feasible", P(fixed("a", 1), fixed("b", 1), H=2), {}, [["start", "a"]], 5))
     out.append(("plain-infeasible", P(fixed("a", 2), con("TaskEndBefore", "c", task=R("a"), value=1), H=2), {}, [["start", "a"]], 4))
-    out.append(("plain-optional", P(fixed("a", 1, optional=True), fixed("b", 1), H=2), {}, [["start", "b"]], 4))
+    out.append(("plain-optional", P(fixed("a", 1, optional=True), fixed("b", 1), H=2), {}, [["start", "b"], ["start", "a"]], 4))
+    out.append(("optional-objective", P(fixed("a", 2, optional=True), new("ObjectiveMinimizeFlowtime", "o"), H=2), {}, [["start", "a"]], 4))
     out.append(("plain-optional-forced", P(fixed("a", 1, optional=True), con("OptionalTaskForceSchedule", "r", task=R("a"), to_be_scheduled=True), H=3),
                 {}, [], 5))
     for mi in (None, 1, 2):
